@@ -30,7 +30,7 @@ def plan(tier):
     if tier == "quick":
         return {"cases": _exh_count(5) + 40000, "shards": 16, "timeout": 300, "min_nontrivial": 200,
                 "min": {"oracle_comparisons": 100000, "drain_replays": 20000}}
-    return {"cases": _exh_count(6) + 400000, "shards": 16, "timeout": 3000, "min_nontrivial": 5000,
+    return {"cases": _exh_count(6) + 1500000, "shards": 16, "timeout": 5400, "min_nontrivial": 5000,
             "min": {"oracle_comparisons": 1000000}}
 
 
